@@ -738,9 +738,10 @@ def e2e_object(ctx, spec, methods, order_k):
         r = alg.result
         Fn, Xi, Ph = np.asarray(r.Fn), np.asarray(r.Xi), np.asarray(r.Phi)
         cs = dict(case, step=what, mpe_order=perm)
-        if Fn.shape != (m,) or Xi.shape != (m,) or Ph.shape != (Phi.shape[0], m):
-            ctx.fail("oracle", "%s: result.Fn/Xi/Phi have shapes %s %s %s for %d modes and %d sensors" % (what, Fn.shape, Xi.shape, Ph.shape, m, Phi.shape[0]),
-                     cs, key="C03:e2e:shape")
+        nq = len(perm)
+        if Fn.shape != (nq,) or Xi.shape != (nq,) or Ph.shape != (Phi.shape[0], nq):
+            ctx.fail("oracle", "%s, global modes %s requested: result.Fn/Xi/Phi have shapes %s %s %s for %d requested modes and %d sensors"
+                     % (what, perm, Fn.shape, Xi.shape, Ph.shape, nq, Phi.shape[0]), cs, key="C03:e2e:shape")
             return
         tol = case_tol(spec, Y0, brr, method)
         if tol > TOL_CAP:
@@ -770,13 +771,35 @@ def e2e_object(ctx, spec, methods, order_k):
     orders = [first_order, rev if first_order == asc else rot]
 
     nreq = [0]
+    POLES = ("Fn_poles", "Xi_poles", "Phi_poles", "Lab", "Lambds")
 
-    def request(nm, perm):
-        """alternately with the default rtol (as a user would call it) and with a tight one"""
+    def request(nm, perm, alg=None, what=""):
+        """alternately with the default rtol (as a user would call it) and with a tight one; every third request gives the order as a
+        list; the stored pole tables of the run must be bit-unchanged by the extraction"""
         kw = {} if nreq[0] % 2 == 0 else {"rtol": 1e-3}
+        order = 2 * m if nreq[0] % 3 != 2 else [2 * m] * len(perm)
         nreq[0] += 1
         ctx.hist("mpe_rtol", "default" if not kw else "1e-3")
-        ms.mpe(nm, sel_freq=[float(spec["fn"][i]) for i in perm], order=2 * m, **kw)
+        ctx.hist("mpe_request", "all modes" if len(perm) == m else "%d of %d modes" % (len(perm), m))
+        before = {a: np.array(getattr(alg.result, a), copy=True) for a in POLES if alg is not None and getattr(alg.result, a, None) is not None}
+        ms.mpe(nm, sel_freq=[float(spec["fn"][i]) for i in perm], order=order, **kw)
+        for a, v in before.items():
+            now = np.asarray(getattr(alg.result, a))
+            if now.shape != v.shape or now.dtype != v.dtype or not np.array_equal(now, v, equal_nan=True):
+                ctx.fail("oracle", "%s: mpe(global modes %s, order=%s) changes result.%s of the run (%d entries differ): a later extraction on the same run "
+                         "no longer sees the identified poles" % (what, perm, order, a,
+                                                                  int(np.sum(~((now == v) | (np.isnan(now) & np.isnan(v))))) if now.shape == v.shape else -1),
+                         dict(case, step=what, mpe_order=perm), key="C03:e2e:mpe-mutates-poles")
+                break
+
+    def extract(alg, nm, me, brr, what, perms):
+        """a sequence of extractions with DIFFERENT requests on the same run, each judged against the truth"""
+        for q, perm in enumerate(perms):
+            wq = "%s, extraction %d of %d on this run" % (what, q + 1, len(perms))
+            request(nm, perm, alg, wq)
+            intact(ms, wq)
+            ctx.hist("mpe_order", "ascending" if perm == sorted(perm) else "non-ascending")
+            judge(alg, nm, me, brr, wq, perm)
 
     forms = [f for f in REF_FORMS if as_form(spec["pos"], f) is not None]
     form = forms[order_k % len(forms)]
@@ -795,29 +818,26 @@ def e2e_object(ctx, spec, methods, order_k):
         ms.run_all()
         intact(ms, step)
         first = (names if order_k % 2 == 0 else names[::-1])[0]
-        for nm, me, perm in zip(names, methods, orders):
+        j0 = order_k % m
+        drop = [i for i in rev if i != (order_k + 1) % m] or rev
+        seqs = [[[j0], orders[0]],            # a single mode, then all modes
+                [orders[1], drop]]            # all modes, then a subset in descending order
+        if spec.get("mpe_sequence"):
+            seqs[0] = [[int(x) for x in q] for q in spec["mpe_sequence"]]
+        for nm, me, perms in zip(names, methods, seqs):
             step = "mpe(%s)" % cls_of[me]
-            request(nm, perm)
-            intact(ms, step)
-            ctx.hist("mpe_order", "ascending" if perm == asc else "non-ascending")
-            judge(algs[nm], nm, me, br, "%s identification on the object: %s, br=%d" % ("first" if nm == first else "second", cls_of[me], br), perm)
+            extract(algs[nm], nm, me, br, "%s identification on the object: %s, br=%d" % ("first" if nm == first else "second", cls_of[me], br), perms)
         # another identification on the same object and the same split data: one more block row
         me3 = methods[-1] if order_k % 2 == 0 else methods[0]
         step = "run_by_name(%s, br+1)" % cls_of[me3]
         c = make("c", me3, br + 1)
         ms.add_algorithms(c)
         ms.run_by_name("c")
-        request("c", rot)
-        intact(ms, step)
-        ctx.hist("mpe_order", "ascending" if rot == asc else "non-ascending")
-        judge(c, "c", me3, br + 1, "later identification on the same object: %s, br=%d" % (cls_of[me3], br + 1), rot)
+        extract(c, "c", me3, br + 1, "later identification on the same object: %s, br=%d" % (cls_of[me3], br + 1), [rev[:2], rot])
         # and the first algorithm once more
         step = "re-run(%s)" % cls_of[methods[0]]
         ms.run_by_name("a")
-        request("a", zig)
-        intact(ms, step)
-        ctx.hist("mpe_order", "ascending" if zig == asc else "non-ascending")
-        judge(algs["a"], "a", methods[0], br, "re-run on the same object: %s, br=%d" % (cls_of[methods[0]], br), zig)
+        extract(algs["a"], "a", methods[0], br, "re-run on the same object: %s, br=%d" % (cls_of[methods[0]], br), [zig, [(j0 + 1) % m]])
     except Exception as e:  # noqa: BLE001
         ctx.fail("oracle", "MultiSetup_PreGER + %s: %s raises %s on noise-free records" % ("/".join(cls_of[x] for x in methods), step, type(e).__name__),
                  dict(case, step=step), key="C03:e2e:raises")
@@ -838,7 +858,8 @@ def run(ctx):
                          "per case, both methods, every case identified repeatedly on the same split data / the same object (inputs must stay bit-equal), "
                          "one case in four with one mode 10^-2..10^-6 weaker in a later setup (tolerance 1000 eps kappa(H), not judged above 2e-2); "
                          "reference index lists in every accepted container form (lists, int64/int32 arrays, tuples, 2-D array); mpe requests in ascending, "
-                         "descending, rotated and zig-zag order (triple k = the mode requested at position k), default and tight rtol; one case in four "
+                         "descending, rotated and zig-zag order (triple k = the mode requested at position k), default and tight rtol, sequences of "
+                         "different request subsets on one run (single mode then all, all then a subset; pole tables bit-unchanged); one case in four "
                          "with two global modes 1-4 % apart; "
                          "non-trivial = always (>= 2 setups, gains differ); distinct by hash of the full spec")
     ctx.assumptions += [
